@@ -563,8 +563,10 @@ def run_op(sd: SuccessionDiagram, op: dict, timeout_s: float = 45.0) -> tuple[Su
                 sd.node_attractor_sets(i, compute=True)
             ret = "ok"
         elif kind == "expseeds":
-            for i in list(sd.expanded_ids()):
-                sd.node_attractor_seeds(i, compute=True)
+            # the aggregated accessor (what the repository's tests and users call); its answer is checked against the
+            # per-node data of the projection (AGG clause)
+            r = sd.expanded_attractor_seeds()
+            out = [[int(k) + 1, [vec(x, names) for x in v]] for k, v in sorted(r.items())]
             ret = "ok"
         elif kind == "setcfg":
             c = ev["newcfg"]
